@@ -63,6 +63,9 @@ def gen_case(rng, tier, index):
                                                   "include_files", "include_files"],
                                                  rng.randint(3, 8)))
     model = projgen.gen_valid_project(rng, nmin=4, nmax=7, features=feats)
+    if index % 4 == 1:
+        # a recipe that hands a tool on under another name, reached under two providers of that tool
+        projgen.add_tool_remap(rng, model)
     perts = [_pert(rng) for _ in range(rng.choice([2, 3, 4]))]
     k = rng.random()
     extra = []
@@ -78,6 +81,8 @@ def gen_case(rng, tier, index):
             extra.append({"kind": "reached-earlier"})
         else:
             extra.append({"kind": "weaktool-variant"})
+    if "toolremap" in model.get("features", []) and not any(x["kind"] == "reached-earlier" for x in extra):
+        extra.append({"kind": "reached-earlier"})
     return {"model": model, "perturbations": perts, "extra": extra}
 
 def directed_cases(tier):
@@ -212,6 +217,11 @@ def run_case(case):
                     # other path does (without the environment, tools and conditions of those paths)
                     m2["recipes"]["extra"]["depends"] = [{"name": n, "use": ["result", "deps"]}
                                                          for n in reversed(m2["order"]) if n not in ("root", "sbx", "pw")]
+                    if "toolremap" in model.get("features", []):
+                        # the wrapper that root reaches second is reached first now (the recipes below it
+                        # cannot be reached without a provider of the remapped tool)
+                        later = [x["name"] for x in m2["recipes"]["root"]["depends"] if x["name"] in ("wa", "wb")][-1:]
+                        m2["recipes"]["extra"]["depends"] = [{"name": n, "use": ["result", "deps"]} for n in later]
                     m2["recipes"]["root"]["depends"].insert(0, {"name": "extra", "use": ["result", "deps"]})
                 m2["order"] = m2["order"] + ["extra"]
                 _copy_project(projgen.files_of(m2), d, None, 0)
